@@ -237,6 +237,26 @@ func (w *world) both(f func(p int)) {
 // prep creates the objects the tuples of one message kind refer to.
 func (w *world) prep(ctx sdk.Context, kind string) error {
 	a := w.e.App
+	keyed := strings.HasSuffix(kind, "#K") // key-collision delivery: the objects whose keys are collided with
+	kind = strings.TrimSuffix(kind, "#K")
+	if keyed {
+		switch kind {
+		case "PaAddLicenseFor":
+			kind = "PaRegisterLightNodeClient" // both principals hold a licence record
+		case "SkSetERC20ToTokenDenom":
+			defer func() {
+				// factory/<p>/sa is already bound to an ERC-20 of its admin's choosing; factory/<p>/su is not bound yet
+				srv, sk := tfkeeper.NewMsgServerImpl(a.TokenFactoryKeeper), skywaykeeper.NewMsgServerImpl(a.SkywayKeeper)
+				w.both(func(p int) {
+					md := valsettypes.MsgMetadata{Creator: w.addr(p).String(), Signers: []string{w.addr(p).String()}}
+					_, err := srv.CreateDenom(ctx, &tftypes.MsgCreateDenom{Subdenom: "su", Metadata: md})
+					must(err)
+					_, err = sk.SetERC20ToTokenDenom(ctx, &skywaytypes.MsgSetERC20ToTokenDenom{Metadata: md, Denom: w.denom[p], ChainReferenceId: chain, Erc20: boundERC20(p)})
+					must(err)
+				})
+			}()
+		}
+	}
 	dest, err := skywaytypes.NewEthAddress("0x00000000000000000000000000000000000000aa")
 	must(err)
 	contract, err := skywaytypes.NewEthAddress(bridgeERC20)
